@@ -179,30 +179,35 @@ def statement_pool(chk, rnd):
     return out
 
 
-def make_pairs(chk, rnd):
-    pairs = []
-    for s in statement_pool(chk, rnd):
-        pairs.append({'sort': 'source', 'label': 'identical', 'a': s, 'b': s})
-        for label, _, m in g.mutations(s):
-            pairs.append({'sort': 'source', 'label': label, 'a': s, 'b': m})
-        feats = {g.canon(f): f for f in s.get('sel', []) + [s.get('where', g.NIL_F), s.get('having', g.NIL_F)]
-                 if f['f'] != 'nil'}
+def expand_term(term):
+    """All pairs derived from one statement / origin: itself rebuilt, each one-leaf mutation, and the same for each of its
+    top-level features."""
+    pairs = [{'sort': 'source', 'label': 'identical', 'a': term, 'b': term}]
+    for label, _, m in g.mutations(term):
+        pairs.append({'sort': 'source', 'label': label, 'a': term, 'b': m})
+    if term['t'] == 'query':
+        feats = {g.canon(f): f for f in term['sel'] + [term['where'], term['having']] if f['f'] != 'nil'}
         for f in feats.values():
             pairs.append({'sort': 'feature', 'label': 'identical', 'a': f, 'b': f})
             for label, _, m in g.mutations(f):
                 pairs.append({'sort': 'feature', 'label': label, 'a': f, 'b': m})
-    # origins as such (tables, references, joins)
-    for o in g.origins(1, False):
-        pairs.append({'sort': 'source', 'label': 'identical', 'a': o, 'b': o})
-        for label, _, m in g.mutations(o):
-            pairs.append({'sort': 'source', 'label': label, 'a': o, 'b': m})
-    # literal leaves alone, same-kind and cross-kind collisions
+    return pairs
+
+
+def base_terms(chk, rnd):
+    """Statements and origins the pairs are derived from."""
+    return statement_pool(chk, rnd) + list(g.origins(1, False))
+
+
+def fixed_pairs():
+    """Pairs that are not derived from a statement: literal leaves, a source against a feature, kinds, schemas."""
+    pairs = []
     for x, y in g.COLLIDING_SAME_KIND + g.COLLIDING_CROSS_KIND + [(1, 2), ('a', 'b'), (True, False), (0.5, 1.5)]:
         pairs.append({'sort': 'feature', 'label': 'literal' if type(x) is type(y) else 'literal_kind',
                       'a': g.lit(x), 'b': g.lit(y)})
     # a source against a feature made of the same two items
-    A = g.TABLES['A']
     # (the other direction, feature == source, is the DSL comparison operator applied to a non-literal: an error by design)
+    A = g.TABLES['A']
     pairs.append({'sort': 'mixed', 'label': 'sort', 'a': g.ref(A, 'i'), 'b': g.col(A, 'i')})
     kinds = kind_terms()
     for a, b in itertools.product(kinds, kinds):
@@ -210,13 +215,11 @@ def make_pairs(chk, rnd):
     schemas = schema_terms()
     for a, b in itertools.product(schemas, schemas):
         pairs.append({'sort': 'schema', 'label': 'identical' if a == b else 'schema', 'a': a, 'b': b})
-    seen, out = set(), []
-    for p in pairs:
-        key = (p['sort'], g.canon(p['a']), g.canon(p['b']))
-        if key not in seen:
-            seen.add(key)
-            out.append(p)
-    return out
+    return pairs
+
+
+def pair_key(p):
+    return p['sort'] + g.canon(p['a']) + g.canon(p['b'])
 
 
 # --------------------------------------------------------------------------------------------- measurement
@@ -371,34 +374,47 @@ def measure(pairs, stress=False):
     return out
 
 
-def _measure_chunk(chunk):
-    return measure(chunk)
+def _measure_work(work, stress=False):
+    """Worker: expand the base terms into pairs and measure them together with the given explicit pairs."""
+    terms, pairs = work
+    pairs = list(pairs)
+    for term in terms:
+        pairs += expand_term(term)
+    return list(zip(pairs, measure(pairs, stress)))
 
 
 # --------------------------------------------------------------------------------------------- code -> spec
-def trace_identity(chk, pairs, procs):
+def trace_identity(chk, terms, extra, procs):
     t0 = time.time()
-    chunks = [pairs[i::procs * 4] for i in range(procs * 4)]
-    index = [list(range(len(pairs)))[i::procs * 4] for i in range(procs * 4)]
     # second measurement of a sample in a separate interpreter: other hash seed, 10^4 unrelated live objects, reverse order
     step = 4 if chk.quick else 3
-    sample_idx = list(range(0, len(pairs), step))
-    spath = common.write_json([pairs[i] for i in sample_idx], 'c08-stress-in.json')
+    spath = common.write_json({'terms': terms[::step], 'pairs': extra[::step]}, 'c08-stress-in.json')
     env = dict(os.environ, PYTHONHASHSEED='4242')
     stress_proc = subprocess.Popen([sys.executable, '-W', 'ignore', '-m', 'harness.drivers.C08', '--measure', spath,
                                     os.path.abspath('c08-stress-out.json')], env=env, stdout=subprocess.DEVNULL,
                                    stderr=subprocess.PIPE, text=True)
+    work = [(terms[i:i + 4], []) for i in range(0, len(terms), 4)] + [([], extra[i::procs]) for i in range(procs)]
     with multiprocessing.get_context('fork').Pool(procs) as pool:
-        results = pool.map(_measure_chunk, [c for c in chunks if c], chunksize=1)
-    measured = [None] * len(pairs)
-    for idxs, res in zip([i for i, c in zip(index, chunks) if c], results):
-        for i, r in zip(idxs, res):
-            measured[i] = r
-    _, err = stress_proc.communicate(timeout=3000)
+        results = list(itertools.chain.from_iterable(pool.map(_measure_work, work, chunksize=1)))
+    pairs, measured, position = [], [], {}
+    for p, m in results:
+        key = pair_key(p)
+        if key not in position:
+            position[key] = len(pairs)
+            pairs.append(p)
+            measured.append(m)
+    _, err = stress_proc.communicate(timeout=6000)
     if stress_proc.returncode != 0:
         raise tlc.MachineryError(f'stress measurement failed: {err[-2000:]}')
     with open('c08-stress-out.json') as fh:
-        stressed = json.load(fh)
+        stress_out = json.load(fh)
+    sample_idx, stressed, seen_keys = [], [], set()
+    for p, m in stress_out:
+        key = pair_key(p)
+        if key in position and key not in seen_keys:
+            seen_keys.add(key)
+            sample_idx.append(position[key])
+            stressed.append(m)
     t1 = time.time()
     skipped = collections.Counter()
     obs, meta = [], []
@@ -635,7 +651,7 @@ def main(chk):
     logging.disable(logging.INFO)
     rnd = random.Random(chk.seed)
     replay_histories(chk)
-    trace_identity(chk, make_pairs(chk, rnd), PROCS)
+    trace_identity(chk, base_terms(chk, rnd), fixed_pairs(), PROCS)
     chk.assume('structural identity of a table includes its name; of a schema only its (name, kind) fields '
                '(tests/io/dsl/_struct/test_frame.py treats equally-fielded schemas of different titles as one key)')
     chk.assume('unequal objects with equal hashes are not a violation by themselves (python allows collisions); '
@@ -668,4 +684,4 @@ if __name__ == '__main__':
         with open(sys.argv[2]) as fh_in:
             todo = json.load(fh_in)
         with open(sys.argv[3], 'w') as fh_out:
-            json.dump(measure(todo, stress=True), fh_out)
+            json.dump(_measure_work((todo['terms'], todo['pairs']), stress=True), fh_out)
